@@ -456,6 +456,10 @@ func (ev *Ev) specMath(name string, x *ast.CallExpr) (Value, bool) {
 		return scalar(app("rfloor", ev.realArg(x.Args[0])), SReal, ft), true
 	case "Ceil":
 		return scalar(app("rceil", ev.realArg(x.Args[0])), SReal, ft), true
+	case "Round":
+		// round half away from zero (as the code side does)
+		a := ev.realArg(x.Args[0])
+		return scalar(app("ite", app(">=", a, "0.0"), app("rfloor", app("+", a, "0.5")), app("rceil", app("-", a, "0.5"))), SReal, ft), true
 	case "Max":
 		return scalar(app("rmax", ev.realArg(x.Args[0]), ev.realArg(x.Args[1])), SReal, ft), true
 	case "Min":
